@@ -137,6 +137,22 @@ class Model:
     def cls(self, ref, optional=False):
         return self.find(ref, (ast.ClassDef,), optional)
 
+    def func_moved(self, ref):
+        """a function that may have been moved between nesting levels: `rel::outer.name` is also looked for as a module-level
+        (or class-level) `name` / `_name` (a closure hoisted out of its function), and the other way round"""
+        f = self.func(ref, optional=True)
+        if f is not None:
+            return f
+        rel, _, qual = ref.partition("::")
+        leaf = qual.split(".")[-1]
+        m = self.mod(rel)
+        for cand in (leaf, "_" + leaf, leaf.lstrip("_")):
+            hits = [n for q, ns in m._index.items() if q.split(".")[-1] == cand for n in ns
+                    if isinstance(n, (ast.FunctionDef, ast.AsyncFunctionDef))]
+            if len(hits) == 1:
+                return hits[0]
+        raise AnalysisError(f"anchor not found: {ref} (also not as a moved `{leaf}` / `_{leaf}`)")
+
     def func_view(self, ref, depth=2, exclude=()):
         """helper calls expanded (func_expanded) and single-assignment pure locals propagated (inline.propagate_locals):
         the view of a function that is indifferent to extract-method and to hoisting/inlining of sub-expressions"""
